@@ -9,10 +9,23 @@ import (
 	"path/filepath"
 	"strings"
 
+	"google.golang.org/protobuf/reflect/protodesc"
 	"google.golang.org/protobuf/types/descriptorpb"
+	"google.golang.org/protobuf/types/known/durationpb"
+	"google.golang.org/protobuf/types/known/emptypb"
+	"google.golang.org/protobuf/types/known/timestamppb"
 
 	"storj.io/picobuf/internal/zzverif/protoparse"
 )
+
+// wellKnown: descriptors of the well-known files a schema may import (as protoc would supply them)
+func wellKnown() []*descriptorpb.FileDescriptorProto {
+	return []*descriptorpb.FileDescriptorProto{
+		protodesc.ToFileDescriptorProto(emptypb.File_google_protobuf_empty_proto),
+		protodesc.ToFileDescriptorProto(timestamppb.File_google_protobuf_timestamp_proto),
+		protodesc.ToFileDescriptorProto(durationpb.File_google_protobuf_duration_proto),
+	}
+}
 
 // genrun <plugin> <outdir> <params> <proto path>=<recorded name>...
 // Runs the repository's protoc-gen-pico (built from the working tree) on descriptors
@@ -31,7 +44,7 @@ func init() {
 			if !filepath.IsAbs(path) {
 				path = filepath.Join(repoRoot(), path)
 			}
-			fd, err := protoparse.ParseFileWithDeps(path, name, picoFD)
+			fd, err := protoparse.ParseFileWithDeps(path, name, append([]*descriptorpb.FileDescriptorProto{picoFD}, wellKnown()...)...)
 			if err != nil {
 				fmt.Fprintf(out, "schemaerror\t%s\t%s\n", name, oneLine(err.Error()))
 				continue
@@ -66,11 +79,19 @@ func init() {
 			}
 			path, name := spec[:i], spec[i+1:]
 			res := func() string {
-				fd, err := protoparse.ParseFileWithDeps(path, name, picoFD)
+				fd, err := protoparse.ParseFileWithDeps(path, name, append([]*descriptorpb.FileDescriptorProto{picoFD}, wellKnown()...)...)
 				if err != nil {
 					return "error\tparse: " + oneLine(err.Error())
 				}
-				req := protoparse.NewRequest([]*descriptorpb.FileDescriptorProto{protoparse.DescriptorProtoFile(), picoFD, fd}, []string{name}, params)
+				files := []*descriptorpb.FileDescriptorProto{protoparse.DescriptorProtoFile(), picoFD}
+				for _, wk := range wellKnown() {
+					for _, d := range fd.GetDependency() {
+						if d == wk.GetName() {
+							files = append(files, wk)
+						}
+					}
+				}
+				req := protoparse.NewRequest(append(files, fd), []string{name}, params)
 				resp, err := protoparse.RunPlugin(plugin, req)
 				if err != nil {
 					return "error\tplugin: " + oneLine(err.Error())
